@@ -116,6 +116,28 @@ Definition travel_ok (i : ainput) (o : outcome) (ob : tobs) : bool :=
 Definition commit_regime_ref (i : ainput) (p0 : parent) (cl : list child) : bool :=
   commit_parent (i_cis i) p0 && forallb (commit_child (i_cis i)) cl && stamps_monotone (i_cis i) cl.
 
+(* SPEC (timestamp regime, no deleted version inside the window; theorem C11_find_visible_spec):
+   the closest candidate in [at - eps, at + eps] — versions stamped after [at] only from the
+   parent's changeset, ties to the later version — else the last version before the window *)
+Definition spec_select (cis cid at_ eps : Z) (cl : list child) : option child :=
+  let candb := fun c => (at_ - eps <=? stamp cis c) && (stamp cis c <=? at_ + eps)
+                        && ((stamp cis c <=? at_) || (c_changeset c =? cid)) in
+  let dist := fun c => Z.abs (stamp cis c - at_) in
+  match filter candb cl with
+  | [] => match last (map Some (filter (fun c => stamp cis c <? at_ - eps) cl)) None with
+          | Some c => if c_visible c then Some c else None
+          | None => None
+          end
+  | cands => fold_left (fun best c => match best with
+                                      | None => Some c
+                                      | Some b => if dist c <=? dist b then Some c else Some b
+                                      end) cands None
+  end.
+
+Definition ts_regime_clean (cis at_ eps : Z) (cl : list child) : bool :=
+  (0 <=? eps) && forallb (fun c => c_committed c <? cis) cl && stamps_monotone cis cl
+  && forallb (fun c => negb ((at_ - eps <=? stamp cis c) && (stamp cis c <=? at_ + eps)) || c_visible c) cl.
+
 Definition annotated_ref_ok (i : ainput) (p0 : parent) (r0 ra : ref) : bool :=
   let cis := i_cis i in
   if filtered_out (o_filter (i_opts i)) r0 then ref_eqb ra r0
@@ -129,8 +151,13 @@ Definition annotated_ref_ok (i : ainput) (p0 : parent) (r0 ra : ref) : bool :=
                       else o_ignore_incons (i_opts i) && ref_eqb ra r0
           | None => o_ignore_incons (i_opts i) && ref_eqb ra r0
           end
+        else if ts_regime_clean cis (pstamp cis p0) (o_threshold (i_opts i)) cl then
+          match spec_select cis (p_changeset p0) (pstamp cis p0) (o_threshold (i_opts i)) cl with
+          | Some c => carries ra c
+          | None => o_ignore_incons (i_opts i) && ref_eqb ra r0
+          end
         else
-          (* generic regime: the annotation is a visible version of this child, or none *)
+          (* other mixtures: the annotation is a visible version of this child, or none *)
           ref_eqb ra r0 ||
           match find_version cl (r_version ra) with
           | Some c => c_visible c && carries ra c
